@@ -100,6 +100,13 @@ def cases(ctx):
         # pairwise-ish thinning: keep every 3rd combination plus all with the boundary passphrases
         combos = [x for j, x in enumerate(combos) if j % 3 == 0 or x[5] in (b'', b'a', b'y' * 64, b'z' * 65)]
     out += combos
+    # the boundary of the octet count against the length of salt + passphrase (3.7.1.3: a count smaller than that still hashes the whole of
+    # salt + passphrase): every passphrase length from 18 below to 2 above the decoded count, for counts 1024 (coded 0), 1088 (1), 2048 (16)
+    for c, cnt in ((0, 1024), (1, 1088), (16, 2048)):
+        for d in range(-18, 3):
+            if not ctx.quick or c == 0 or d % 3 == 0:
+                pw = bytes((i * 7 + d) % 251 + 1 for i in range(cnt + d))
+                out.append((3, HASHES[(d + 18) % 7], CIPHERS[(d + 18) % 3], salts[(d + 18) % 3], c, pw))
     if not ctx.quick:
         # all counts x SHA-256 x AES-256 (two contexts... no: one) and x MD5 x AES-256 (two contexts)
         for c in range(0, 200):
